@@ -145,7 +145,7 @@ def run(res):
     vh, exe = P.base(res, PROP)
     rng = random.Random(res.seed)
     pairs = []
-    for _ in range(500 if res.tier == "quick" else 10000):
+    for _ in range(500 if res.tier == "quick" else 50000):
         ls = gen_lines(rng, rng.choice([2, 5, 9, 15]))
         orig = render(ls, Plain())
         for _ in range(3):
